@@ -621,7 +621,12 @@ end Examples
 truths; generic labels, traffic-light labels with both `uuid_matching_first` settings) over every assignment of the
 equality atoms it queries (`PEval/Gen/ClassificationDT.lean`). `ClassificationDT.skel` is the hand-written skeleton over
 the same atoms; `DT.agree` decides by kernel evaluation, completely for the finite decision space, that table and
-skeleton give the same result list under EVERY valuation. The skeleton itself is tied to the model by exhaustive
+skeleton give the same SET of pairs (`canonRes`: result order forgotten — the property speaks of pairs, not of a list;
+unpaired results forgotten on the traffic-light path, where the text does not say whether they are reported) under every
+valuation an input inside the quantifier can induce (`pairForb`: a valuation where one object shares uuid AND camera with
+both objects of the other side belongs to no input with unique uuids per side and camera, so what the code does there —
+`ValueError` of `list.remove`, a guard, silently skipping — is left open). Among several equally admissible partners the
+model's list-order choice is still the reference (a reversed ground-truth scan of the traffic-light matcher is reported). The skeleton itself is tied to the model by exhaustive
 kernel evaluation: on every valuation of a shape's atoms it equals the MODEL's own loops (`outer`, `stepU`, `stepG`,
 `take`, `pairById` / `pairTlr` with their tests as parameters) run on index objects. A shape the translator cannot
 follow has `tree = none` (vacuous; the evidence says so). -/
@@ -631,32 +636,37 @@ open PEval.DT PEval.ClassificationDT
 /-- every atom may be asked again further down a path (stage 2 of the traffic-light matcher re-reads uuid and frame) -/
 def pairSticky : List Nat := List.range 14
 
+/-- the code's table agrees with the canonical skeleton `skelC` (pairs as a SET: result order forgotten; unpaired results
+of the traffic-light path forgotten) on every valuation that avoids `pairForb` (the valuations no input with unique
+uuids per side and camera induces) -/
 def pairTablesOk : Bool :=
   Gen.ClassificationDT.tables.all fun row =>
     match row.2.2 with
-    | some t => agree [] pairSticky t (skel row.1 (row.2.1 / 3) (row.2.1 % 3)) PA.empty
+    | some t => agree pairForb pairSticky t (skelC row.1 (row.2.1 / 3) (row.2.1 % 3)) PA.empty
     | none => true
 
 /-- THE per-run obligation: the checker accepts every regenerated table -/
 theorem pair_table_check : pairTablesOk = true := by decide +kernel
 
-/-- the code's decision table of `get_object_results` (every tabulated function and shape) equals the model's
-skeleton under every valuation of the atoms -/
+/-- the code's decision table of `get_object_results` (every tabulated function and shape; leaves written canonically by
+`harness/dt_c11.py`) equals the canonical form of the model's skeleton under every valuation of the atoms that is
+consistent with `pairForb` -/
 theorem pair_code_table_eq_model :
-    ∀ row ∈ Gen.ClassificationDT.tables, ∀ t, row.2.2 = some t → ∀ v : Val,
-      eval t v = skelAtoms row.1 (row.2.1 / 3) (row.2.1 % 3) v := by
-  intro row hrow t ht v
+    ∀ row ∈ Gen.ClassificationDT.tables, ∀ t, row.2.2 = some t → ∀ v : Val, consistent pairForb v = true →
+      eval t v = canonRes (dropFPOf row.1 (row.2.1 / 3) (row.2.1 % 3)) (skelAtoms row.1 (row.2.1 / 3) (row.2.1 % 3) v) := by
+  intro row hrow t ht v hc
   have h := pair_table_check
   unfold pairTablesOk at h
   rw [List.all_eq_true] at h
   have h2 := h row hrow
   rw [ht] at h2
-  exact agree_sound h2 v (by simp [consistent])
+  rw [agree_sound h2 v hc, eval_skelC]
 
 /-- the same with the shape spelt out -/
 theorem pair_code_table_eq_skel {f n m : Nat} {t : DTree} (ht : (f, 3 * n + m, some t) ∈ Gen.ClassificationDT.tables)
-    (hm : m < 3) (v : Val) : eval t v = skelAtoms f n m v := by
-  have h := pair_code_table_eq_model _ ht t rfl v
+    (hm : m < 3) (v : Val) (hc : consistent pairForb v = true) :
+    eval t v = canonRes (dropFPOf f n m) (skelAtoms f n m v) := by
+  have h := pair_code_table_eq_model _ ht t rfl v hc
   have h1 : (3 * n + m) / 3 = n := by omega
   have h2 : (3 * n + m) % 3 = m := by omega
   dsimp only at h
@@ -664,19 +674,25 @@ theorem pair_code_table_eq_skel {f n m : Nat} {t : DTree} (ht : (f, 3 * n + m, s
   exact h
 
 /-- composition with `skel_eq_model_on_index` (Lemmas/ClassificationDT.lean: skeleton = the MODEL's own loops on index
-objects, for every valuation of the shape's atoms): the CODE's table on a valuation of the shape's atoms is the
-model's algorithm on index objects -/
+objects, for every valuation of the shape's atoms): the CODE's table on a consistent valuation of the shape's atoms is
+the canonical form of the model's algorithm on index objects -/
 theorem pair_code_table_eq_model_on_index {f n m : Nat} {t : DTree}
     (ht : (f, 3 * n + m, some t) ∈ Gen.ClassificationDT.tables) (hf : f ∈ [0, 1, 2]) (hs : (n, m) ∈ shapes)
     (hm : m < 3) :
-    ∀ bs ∈ allBits (shapeAtoms f n m).length,
-      eval t (valOf (shapeAtoms f n m) bs) = modelOnIndex f n m (valOf (shapeAtoms f n m) bs) := by
-  intro bs hbs
-  rw [pair_code_table_eq_skel ht hm]
+    ∀ bs ∈ allBits (shapeAtoms f n m).length, consistent pairForb (valOf (shapeAtoms f n m) bs) = true →
+      eval t (valOf (shapeAtoms f n m) bs) = canonRes (dropFPOf f n m) (modelOnIndex f n m (valOf (shapeAtoms f n m) bs)) := by
+  intro bs hbs hc
+  rw [pair_code_table_eq_skel ht hm _ hc]
   have h := skel_eq_model_on_index f hf _ hs
   unfold skelOk at h
   rw [List.all_eq_true] at h
-  exact beq_iff_eq.mp (h bs hbs)
+  have h' := beq_iff_eq.mp (h bs hbs)
+  unfold skelAtoms
+  rw [h']
+
+/-- every valuation of a 1 × 1 shape is consistent with `pairForb` (its clauses need two objects on one side) -/
+theorem consistent_1x1 : ∀ f ∈ [0, 1, 2], ∀ bs ∈ allBits (shapeAtoms f 1 1).length,
+    consistent pairForb (valOf (shapeAtoms f 1 1) bs) = true := by decide +kernel
 
 /-- C11 for the code's table, one generic estimate and one ground truth (every valuation of the shape's atoms): they
 are paired iff they share the uuid and the camera frame; otherwise the estimate is reported unpaired, unless it lives in
@@ -687,12 +703,14 @@ theorem table_generic_1x1 {t : DTree} (ht : (0, 3 * 1 + 1, some t) ∈ Gen.Class
         .other (if (valOf (shapeAtoms 0 1 1) bs).b (aUuid 0 0) && (valOf (shapeAtoms 0 1 1) bs).b (aFrame 0 0)
           then digitOf 0 (some 0) else if (valOf (shapeAtoms 0 1 1) bs).b (aTl 0) then 0 else digitOf 0 none) := by
   intro bs hbs
-  rw [pair_code_table_eq_model_on_index ht (by decide) (by decide) (by decide) bs hbs]
+  rw [pair_code_table_eq_model_on_index ht (by decide) (by decide) (by decide) bs hbs
+    (consistent_1x1 0 (by decide) bs hbs)]
   revert bs
   decide +kernel
 
 /-- C11 for the code's table, traffic lights 1 × 1: paired iff same camera and (same uuid, or — without
-`uuid_matching_first` — same label): stage 2 pairs by uuid what stage 1 left -/
+`uuid_matching_first` — same label): stage 2 pairs by uuid what stage 1 left (whether an unpaired traffic-light estimate
+is also reported is left open, `dropFPOf`) -/
 theorem table_tlr_1x1 {t1 t2 : DTree} (h1 : (1, 3 * 1 + 1, some t1) ∈ Gen.ClassificationDT.tables)
     (h2 : (2, 3 * 1 + 1, some t2) ∈ Gen.ClassificationDT.tables) :
     (∀ bs ∈ allBits (shapeAtoms 1 1 1).length,
@@ -706,18 +724,24 @@ theorem table_tlr_1x1 {t1 t2 : DTree} (h1 : (1, 3 * 1 + 1, some t1) ∈ Gen.Clas
           then digitOf 0 (some 0) else 0)) := by
   constructor
   · intro bs hbs
-    rw [pair_code_table_eq_model_on_index h1 (by decide) (by decide) (by decide) bs hbs]
+    rw [pair_code_table_eq_model_on_index h1 (by decide) (by decide) (by decide) bs hbs
+      (consistent_1x1 1 (by decide) bs hbs)]
     revert bs
     decide +kernel
   · intro bs hbs
-    rw [pair_code_table_eq_model_on_index h2 (by decide) (by decide) (by decide) bs hbs]
+    rw [pair_code_table_eq_model_on_index h2 (by decide) (by decide) (by decide) bs hbs
+      (consistent_1x1 2 (by decide) bs hbs)]
     revert bs
     decide +kernel
 
 /-- non-vacuity: the checker distinguishes skeletons (the early `break` of seeded change C11_E would be a different
-tree), and a concrete run of the skeleton -/
-example : agree [] pairSticky (skel 0 1 2) (skel 0 1 2) PA.empty = true := by decide +kernel
-example : agree [] pairSticky (skel 1 2 2) (skel 2 2 2) PA.empty = false := by decide +kernel
+tree) although it forgets the result order and the traffic-light FP tail and skips the `pairForb` valuations; a
+reordered result list IS accepted (`canonRes`), a different set of pairs is not -/
+example : agree pairForb pairSticky (skelC 0 1 2) (skelC 0 1 2) PA.empty = true := by decide +kernel
+example : agree pairForb pairSticky (skelC 1 2 2) (skelC 2 2 2) PA.empty = false := by decide +kernel
+example : agree pairForb pairSticky (skelC 0 2 2) (skelC 1 2 2) PA.empty = false := by decide +kernel
+/-- the generic skeleton raising ValueError on a double hit and one that never raises agree modulo `pairForb` only -/
+example : agree pairForb pairSticky (.leaf (.other 62)) (skelC 0 2 2) PA.empty = false := by decide +kernel
 
 end Table
 
@@ -753,44 +777,61 @@ theorem pair_table_rows_present :
     ∀ f ∈ [0, 1, 2], ∀ nm ∈ shapes, (Gen.ClassificationDT.tables.any fun r => r.1 == f && r.2.1 == 3 * nm.1 + nm.2) = true := by
   decide +kernel
 
-/-- WHAT THE CODE'S TABLES SAY ABOUT EVERY INPUT OF THEIR SHAPES (table theorem ∘ skeleton check ∘ relabelling invariance):
-for ALL lists of at most two estimates and two ground truths (a tabulated shape; pairwise distinct objects, non-null uuids;
-any uuids, frames, labels, either `uuid_matching_first`), the tables contain the row of that input, and its tree — the
-decision tree of the REAL `get_object_results` — evaluated at the valuation `valC` of the objects' equality tests, is
-exactly the model's pairing written as index pairs (results in order, each estimate with the position of its ground
-truth or unpaired; `ValueError` where the model raises it). -/
+/-- the quantifier of C11 ("unique non-null uuids per side and camera"), the part the per-run obligation is restricted
+to: no two estimates and no two ground truths share uuid AND camera -/
+def UniqueKeys (ests gts : List Obj) : Prop := (ests.map key).Nodup ∧ (gts.map key).Nodup
+
+/-- such inputs induce valuations the checker looks at -/
+theorem uniqueKeys_consistent {ests gts : List Obj} (hk : UniqueKeys ests gts) (hn : ests.length ≤ 2)
+    (hm : gts.length ≤ 2) : consistent pairForb (valC ests gts) = true :=
+  valC_consistent ests gts hn hm hk.1 hk.2
+
+/-- WHAT THE CODE'S TABLES SAY ABOUT EVERY INPUT OF THEIR SHAPES INSIDE THE QUANTIFIER (table theorem ∘ skeleton check ∘
+relabelling invariance): for ALL lists of at most two estimates and two ground truths (a tabulated shape; pairwise distinct
+objects, non-null uuids, unique (uuid, camera) per side — `UniqueKeys`; any uuids, frames, labels, either
+`uuid_matching_first`), the tables contain the row of that input, and its tree — the decision tree of the REAL
+`get_object_results`, result written canonically — evaluated at the valuation `valC` of the objects' equality tests, is
+the canonical form (`canonRes`: the SET of index pairs; on the traffic-light path with ground truths present without the
+unpaired results) of the model's pairing. -/
 theorem table_pairing_is_model (uf : Bool) (ests gts : List Obj) (hE : ests.Nodup) (hG : gts.Nodup)
-    (hn : ∀ o ∈ ests ++ gts, o.uuid ≠ none) (hs : (ests.length, gts.length) ∈ shapes) :
+    (hn : ∀ o ∈ ests ++ gts, o.uuid ≠ none) (hk : UniqueKeys ests gts) (hs : (ests.length, gts.length) ∈ shapes) :
     ∃ row ∈ Gen.ClassificationDT.tables, row.1 = fOf uf ests ∧ row.2.1 = 3 * ests.length + gts.length ∧
-      ∀ t, row.2.2 = some t → eval t (valC ests gts) = encodeC ests gts (objectResults false uf ests gts) := by
+      ∀ t, row.2.2 = some t → eval t (valC ests gts) =
+        canonRes (dropFPOf (fOf uf ests) ests.length gts.length) (encodeC ests gts (objectResults false uf ests gts)) := by
   have hf : fOf uf ests ∈ [0, 1, 2] := by
     cases ests with
     | nil => simp [fOf]
     | cons e0 es => cases h : e0.label.tl <;> cases uf <;> simp [fOf, h]
   have hrow := pair_table_rows_present (fOf uf ests) hf (ests.length, gts.length) hs
-  obtain ⟨row, hmem, hk⟩ := List.any_eq_true.1 hrow
-  simp only [Bool.and_eq_true, beq_iff_eq] at hk
-  refine ⟨row, hmem, hk.1, hk.2, ?_⟩
+  obtain ⟨row, hmem, hk'⟩ := List.any_eq_true.1 hrow
+  simp only [Bool.and_eq_true, beq_iff_eq] at hk'
+  refine ⟨row, hmem, hk'.1, hk'.2, ?_⟩
   intro t ht
-  have hm : gts.length < 3 := by
+  have hm : ests.length ≤ 2 ∧ gts.length ≤ 2 := by
     simp only [shapes, List.mem_cons, Prod.mk.injEq, List.not_mem_nil, or_false] at hs
     omega
-  have h := pair_code_table_eq_model row hmem t ht (valC ests gts)
+  have h := pair_code_table_eq_model row hmem t ht (valC ests gts) (uniqueKeys_consistent hk hm.1 hm.2)
   have h1 : (3 * ests.length + gts.length) / 3 = ests.length := by omega
   have h2 : (3 * ests.length + gts.length) % 3 = gts.length := by omega
-  rw [hk.1, hk.2, h1, h2] at h
+  rw [hk'.1, hk'.2, h1, h2] at h
   rw [h]
-  exact skel_eq_objectResults uf ests gts hE hG hn hs
+  unfold skelAtoms
+  rw [skel_eq_objectResults uf ests gts hE hG hn hs]
 
-/-- non-vacuity: two traffic lights against two ground truths with crossed uuids, same labels — without
-`uuid_matching_first` stage 1 pairs by label in input order (digits 2 = est 0 ↔ gt 0, 6 = est 1 ↔ gt 1) -/
+/-- non-vacuity: two traffic lights against two ground truths with crossed uuids, same labels (an input inside the
+quantifier: `UniqueKeys`, consistent valuation) — without `uuid_matching_first` stage 1 pairs by label in input order
+(digits 2 = est 0 ↔ gt 0, 6 = est 1 ↔ gt 1), with it by uuid (3 = est 0 ↔ gt 1, 5 = est 1 ↔ gt 0); the canonical
+form keeps both sets of pairs apart -/
 example :
     let e0 : Obj := ⟨0, some "a", ⟨true, "green"⟩, "cam0"⟩
     let e1 : Obj := ⟨1, some "b", ⟨true, "green"⟩, "cam0"⟩
     let g0 : Obj := ⟨2, some "b", ⟨true, "green"⟩, "cam0"⟩
     let g1 : Obj := ⟨3, some "a", ⟨true, "green"⟩, "cam0"⟩
     encodeC [e0, e1] [g0, g1] (objectResults false false [e0, e1] [g0, g1]) = .other 62 ∧
-    encodeC [e0, e1] [g0, g1] (objectResults false true [e0, e1] [g0, g1]) = .other 53 := by decide +kernel
+    encodeC [e0, e1] [g0, g1] (objectResults false true [e0, e1] [g0, g1]) = .other 53 ∧
+    canonRes (dropFPOf 1 2 2) (.other 62) = .other 62 ∧ canonRes (dropFPOf 2 2 2) (.other 53) = .other 53 ∧
+    ([e0, e1].map key).Nodup ∧ ([g0, g1].map key).Nodup ∧
+    consistent pairForb (valC [e0, e1] [g0, g1]) = true := by decide +kernel
 
 end TableAllInputs
 
